@@ -8,6 +8,7 @@ import Mathlib.Algebra.MvPolynomial.Degrees
 import Mathlib.Algebra.MvPolynomial.Monad
 import Mathlib.Tactic.Ring
 import Mathlib.Tactic.Linarith
+import Mathlib.Tactic.NormNum
 /-
 C02  Integration is exact for polynomial data on cells and facets.
 
@@ -64,6 +65,56 @@ theorem C02_det3_translate (a b c d s : ℚ × ℚ × ℚ) :
          (c.1 + s.1, c.2.1 + s.2.1, c.2.2 + s.2.2) (d.1 + s.1, d.2.1 + s.2.1, d.2.2 + s.2.2)
       = det3 a b c d := by
   simp only [det3]; ring
+
+/-- **every affine motion**: under `x ↦ L x + s` with `L = [[l00, l01], [l10, l11]]` the determinant
+    is multiplied by `det L`; rotations, reflections, shears with `|det L| = 1` keep `|det|`, a
+    scaling by `λ` multiplies it by `λ²` -/
+theorem C02_det2_linear (a b c s : ℚ × ℚ) (l00 l01 l10 l11 : ℚ) :
+    det2 (l00 * a.1 + l01 * a.2 + s.1, l10 * a.1 + l11 * a.2 + s.2)
+         (l00 * b.1 + l01 * b.2 + s.1, l10 * b.1 + l11 * b.2 + s.2)
+         (l00 * c.1 + l01 * c.2 + s.1, l10 * c.1 + l11 * c.2 + s.2)
+      = (l00 * l11 - l01 * l10) * det2 a b c := by
+  unfold det2; ring
+
+/-- an orthogonal matrix (`LᵀL = I`: any rotation or reflection, rational entries) has
+    `|det L| = 1` -/
+theorem C02_orthogonal2_det (l00 l01 l10 l11 : ℚ)
+    (h0 : l00 * l00 + l10 * l10 = 1) (h1 : l01 * l01 + l11 * l11 = 1)
+    (h2 : l00 * l01 + l10 * l11 = 0) : |l00 * l11 - l01 * l10| = 1 := by
+  have hsq : (l00 * l11 - l01 * l10) ^ 2 = 1 := by
+    have : (l00 * l11 - l01 * l10) ^ 2
+        = (l00 * l00 + l10 * l10) * (l01 * l01 + l11 * l11) - (l00 * l01 + l10 * l11) ^ 2 := by ring
+    rw [this, h0, h1, h2]; ring
+  have : |l00 * l11 - l01 * l10| ^ 2 = 1 := by rw [sq_abs]; exact hsq
+  have hnn : 0 ≤ |l00 * l11 - l01 * l10| := abs_nonneg _
+  nlinarith [this, hnn]
+
+/-- **rigid motion invariance of `|det|`** for every rational rotation/reflection and translation -/
+theorem C02_abs_det2_rigid (a b c s : ℚ × ℚ) (l00 l01 l10 l11 : ℚ)
+    (h0 : l00 * l00 + l10 * l10 = 1) (h1 : l01 * l01 + l11 * l11 = 1)
+    (h2 : l00 * l01 + l10 * l11 = 0) :
+    |det2 (l00 * a.1 + l01 * a.2 + s.1, l10 * a.1 + l11 * a.2 + s.2)
+          (l00 * b.1 + l01 * b.2 + s.1, l10 * b.1 + l11 * b.2 + s.2)
+          (l00 * c.1 + l01 * c.2 + s.1, l10 * c.1 + l11 * c.2 + s.2)| = |det2 a b c| := by
+  rw [C02_det2_linear, abs_mul, C02_orthogonal2_det l00 l01 l10 l11 h0 h1 h2, one_mul]
+
+/-- three dimensions: under `x ↦ L x + s` the determinant is multiplied by `det L` -/
+theorem C02_det3_linear (a b c d s : ℚ × ℚ × ℚ) (l00 l01 l02 l10 l11 l12 l20 l21 l22 : ℚ) :
+    let T := fun (p : ℚ × ℚ × ℚ) =>
+      (l00 * p.1 + l01 * p.2.1 + l02 * p.2.2 + s.1, l10 * p.1 + l11 * p.2.1 + l12 * p.2.2 + s.2.1,
+       l20 * p.1 + l21 * p.2.1 + l22 * p.2.2 + s.2.2)
+    det3 (T a) (T b) (T c) (T d)
+      = (l00 * (l11 * l22 - l12 * l21) - l01 * (l10 * l22 - l12 * l20) + l02 * (l10 * l21 - l11 * l20))
+          * det3 a b c d := by
+  simp only [det3]; ring
+
+/-- non-vacuity: the 3-4-5 rotation is a rational rigid motion -/
+example : |det2 ((3/5 : ℚ) * 1 + (-4/5) * 0 + 2, (4/5) * 1 + (3/5) * 0 + 7)
+                ((3/5 : ℚ) * 0 + (-4/5) * 1 + 2, (4/5) * 0 + (3/5) * 1 + 7)
+                ((3/5 : ℚ) * 0 + (-4/5) * 0 + 2, (4/5) * 0 + (3/5) * 0 + 7)| = |det2 (1, 0) (0, 1) (0, 0)| := by
+  have := C02_abs_det2_rigid (1, 0) (0, 1) (0, 0) (2, 7) (3/5) (-4/5) (4/5) (3/5)
+    (by norm_num) (by norm_num) (by norm_num)
+  simpa using this
 
 /-! ### sums over cells: subsets, order, refinement-style partitions -/
 
